@@ -13,6 +13,7 @@ MANIFEST = dict(
           "d^2 is attained by a pair of points of the operands (the foot points the code constructs) and no pair of points is closer (universal witnesses in parametric form), hence d is the minimum Euclidean distance; "
           "d = 0 exactly when the operands have a common point, which by C01's contracts is exactly when intersection(a, b) is not None. Callees (inter_line_plane, normalized, length, the tolerance predicates) enter by their contracts."),
     note="A1 real arithmetic; A5 admissions of the tolerance tests on the path (parallel / orthogonal / in). Symmetry is proved by running both argument orders against the same postcondition.",
+    technique='contract-based deductive verification of distance (attained, minimal by universal witnesses; z3 nlsat / z3 4.8 / cvc5) + labelled bounded distance catalogue with exact squared distances',
     design_ref="DESIGN.md section 9 (C10)",
 )
 EXPLANATION = "all documented pairs x both orders x method forms; flat types have one shape, so no bound"
